@@ -12,41 +12,7 @@ Hypothesis peer_inv : forall f, peer (peer f) = f.
 Notation step := (step cap peer selof fixB fixD calm).
 Notation Inv := (Inv cap peer selof).
 
-Ltac opn := unfold finish, die, wake, wake_to, set_pend, disarm in *; simp.
-Ltac brk := repeat match goal with
-  | H : _ /\ _ |- _ => destruct H
-  | H : exists _, _ |- _ => destruct H
-  end.
-Ltac dm := repeat match goal with
-  | |- context [match ?x with Some _ => _ | None => _ end] => destruct x eqn:?
-  end; simp.
-Ltac pose_new H := let T := type of H in lazymatch goal with | _ : T |- _ => fail | _ => pose proof H end.
-
-(* what the guards of the step tell about the pre-state, through the invariant *)
-Ltac facts I :=
-  bools;
-  repeat match goal with
-  | E : co ?s ?f = Some ?c |- _ => pose_new (slot_facts cap peer selof s I f c E)
-  | E : Sel ?s ?g = SEvT ?f ?c |- _ => pose_new (sel_facts cap peer selof s I g f c E)
-  | L : ?k < nexts ?s, E : spc_ (Sb ?s ?k) = SFastT ?c |- _ => pose_new (fast_facts cap peer selof s I k c L E)
-  | L : ?k < nexts ?s, E : spc_ (Sb ?s ?k) = SArm |- _ => pose_new (sub_facts cap peer selof s I k L (or_introl E))
-  | L : ?k < nexts ?s, E : spc_ (Sb ?s ?k) = SStore |- _ => pose_new (sub_facts cap peer selof s I k L (or_intror E))
-  | E : aawake (A ?s ?a) = true |- _ => pose_new (awake_facts cap peer selof s I a E)
-  | E : apc (A ?s ?a) = ?p |- _ =>
-      lazymatch p with Susp => fail | _ => pose_new (home_none cap peer selof s I a ltac:(rewrite E; discriminate)) end
-  | E : apc (A ?s ?a) = ?p |- _ =>
-      lazymatch p with Idle => fail | Dead => fail | _ => pose_new (flight_busy cap peer selof s I a p E eq_refl) end
-  end; brk.
-
-Ltac rw_pc := repeat match goal with
-  | E : apc ?x = ?p, H : context [apc ?x] |- _ => lazymatch H with E => fail | _ => rewrite E in H end
-  end.
-Ltac rw_goal := repeat match goal with
-  | E : apc ?x = ?p |- context [apc ?x] => rewrite E
-  end; cbn [inflight inJ].
-Ltac fin := rw_pc; cbn [inflight inJ] in *; try discriminate; try congruence; try tauto; try lia; eauto.
-
-Ltac dj := repeat match goal with H : _ \/ _ |- _ => destruct H end; try discriminate; try congruence.
+Ltac facts I := facts_gen cap peer selof I.
 
 Lemma pres_B1 s ac s' : Inv s -> step s ac = Some s' ->
   forall a, inflight (apc (A s' a)) = true -> busy s' (afd (A s' a)) = Some a.
@@ -169,6 +135,24 @@ Proof.
   all: try (exfalso; match goal with W : aawake (A ?s ?a) = true |- _ => apply iH10 in W; congruence end).
 Qed.
 
+Lemma pres_HF s ac s' : Inv s -> step s ac = Some s' ->
+  forall k c, k < nexts s' -> spc_ (Sb s' k) = SFastT c -> afd (A s' c) = sfd (Sb s' k).
+Proof.
+  intros I H. pose proof (HF _ _ _ _ I) as iHF. pose proof (F1 _ _ _ _ I) as iF1.
+  step_cases H; facts I; opn; dm; intros k0 c0 Lk Hk; simp; upds; fin.
+  all: try (exfalso; assert (Lk' : k0 < nexts s) by lia; pose proof (H9 _ _ _ _ I k0 _ Lk' Hk); fin; congruence).
+  all: try (assert (Lk' : k0 < nexts s) by lia; pose proof (iHF k0 _ Lk' Hk); fin).
+Qed.
+
+Lemma pres_HS s ac s' : Inv s -> step s ac = Some s' ->
+  forall g f c, Sel s' g = SEvT f c -> afd (A s' c) = f.
+Proof.
+  intros I H. pose proof (HS _ _ _ _ I) as iHS.
+  step_cases H; facts I; opn; dm; intros g0 f0 c0 Hs; simp; upds; fin.
+  all: try (exfalso; pose proof (H7 _ _ _ _ I _ _ _ Hs); fin; congruence).
+  all: try (pose proof (iHS _ _ _ Hs); fin).
+Qed.
+
 (* J: a caller past a failed syscall whose wake condition holds has io_flag set or an event pending *)
 Lemma pres_J s ac s' : Inv s -> step s ac = Some s' ->
   forall a, inJ (apc (A s' a)) = true -> avail cap peer s' (A s' a) ->
@@ -235,6 +219,8 @@ Proof.
   - exact (pres_H8 _ _ _ I H).
   - exact (pres_H9 _ _ _ I H).
   - exact (pres_H10 _ _ _ I H).
+  - exact (pres_HF _ _ _ I H).
+  - exact (pres_HS _ _ _ I H).
   - exact (pres_J _ _ _ I H).
   - exact (pres_K _ _ _ I H).
 Qed.
